@@ -290,6 +290,10 @@ func (e *Eval) hardcoded(fr *Frame, cc *ssa.CallCommon, fn *ssa.Function, args [
 		c.Assume("sync.Pool.Get: returns an arbitrary value (no state carried by the model)")
 		return ret(e.havocVal(site, cc.Signature().Results().At(0).Type(), cur))
 	case "(*sync.Pool).Put":
+		// $gm.pooled[array]: 1 while a buffer sits in a pool; a Put may
+		// change it for any buffer (which one is not tracked)
+		c.DeclComp("$gm.pooled", "(Array Int Int)")
+		c.Havoc(st, "$gm.pooled")
 		return ret()
 	case "runtime/debug.Stack":
 		return ret(e.havocVal(site, cc.Signature().Results().At(0).Type(), cur))
